@@ -699,7 +699,7 @@ func (n *ExtendsNode) Render(w io.Writer, ctx *RenderContext) error {
 	resolvedName := templateName
 	if strings.HasPrefix(templateName, "./") || strings.HasPrefix(templateName, "../") {
 		// Get the directory of the current template
-		currentTemplate := ctx.engine.currentTemplate
+		currentTemplate := ctx.currentTemplateName()
 		if currentTemplate != "" {
 			// Extract the directory part of the current template
 			currentDir := filepath.Dir(currentTemplate)
@@ -825,7 +825,7 @@ func (n *IncludeNode) Render(w io.Writer, ctx *RenderContext) error {
 	resolvedName := templateName
 	if strings.HasPrefix(templateName, "./") || strings.HasPrefix(templateName, "../") {
 		// Get the directory of the current template
-		currentTemplate := ctx.engine.currentTemplate
+		currentTemplate := ctx.currentTemplateName()
 		if currentTemplate != "" {
 			// Extract the directory part of the current template
 			currentDir := filepath.Dir(currentTemplate)
@@ -1140,6 +1140,7 @@ func (n *MacroNode) CallMacro(w io.Writer, ctx *RenderContext, args ...interface
 	macroCtx := NewRenderContext(ctx.env, nil, ctx.engine)
 	macroCtx.parent = ctx
 	macroCtx.sandboxed = ctx.sandboxed // macros called from a sandbox run in it
+	macroCtx.lastLoadedTemplate = ctx.lastLoadedTemplate
 
 	// Ensure context is released even in error paths
 	defer macroCtx.Release()
@@ -1222,7 +1223,7 @@ func (n *ImportNode) Render(w io.Writer, ctx *RenderContext) error {
 	resolvedName := templateName
 	if strings.HasPrefix(templateName, "./") || strings.HasPrefix(templateName, "../") {
 		// Get the directory of the current template
-		currentTemplate := ctx.engine.currentTemplate
+		currentTemplate := ctx.currentTemplateName()
 		if currentTemplate != "" {
 			// Extract the directory part of the current template
 			currentDir := filepath.Dir(currentTemplate)
@@ -1249,7 +1250,8 @@ func (n *ImportNode) Render(w io.Writer, ctx *RenderContext) error {
 	// Create a new context for the imported template
 	importCtx := NewRenderContext(ctx.env, nil, ctx.engine)
 	importCtx.sandboxed = ctx.sandboxed // imports made from a sandbox stay in it
-	// Set the template as the lastLoadedTemplate for relative path resolutionn	importCtx.lastLoadedTemplate = template
+	// Set the template as the lastLoadedTemplate for relative path resolution
+	importCtx.lastLoadedTemplate = template
 
 	// Ensure context is released even in error paths
 	defer importCtx.Release()
@@ -1314,7 +1316,7 @@ func (n *FromImportNode) Render(w io.Writer, ctx *RenderContext) error {
 	resolvedName := templateName
 	if strings.HasPrefix(templateName, "./") || strings.HasPrefix(templateName, "../") {
 		// Get the directory of the current template
-		currentTemplate := ctx.engine.currentTemplate
+		currentTemplate := ctx.currentTemplateName()
 		if currentTemplate != "" {
 			// Extract the directory part of the current template
 			currentDir := filepath.Dir(currentTemplate)
@@ -1341,7 +1343,8 @@ func (n *FromImportNode) Render(w io.Writer, ctx *RenderContext) error {
 	// Create a new context for the imported template
 	importCtx := NewRenderContext(ctx.env, nil, ctx.engine)
 	importCtx.sandboxed = ctx.sandboxed // imports made from a sandbox stay in it
-	// Set the template as the lastLoadedTemplate for relative path resolutionn	importCtx.lastLoadedTemplate = template
+	// Set the template as the lastLoadedTemplate for relative path resolution
+	importCtx.lastLoadedTemplate = template
 
 	// Ensure context is released even in error paths
 	defer importCtx.Release()
